@@ -99,6 +99,8 @@ class Module:
         self._generated_by: Optional["GeneratorCall"] = None
 
         self._importpath = None  # Optional field set by importers
+        self._elaboration_started = False  # Set when first visited by an elaboration pass
+        self._elaboration_open = False  # Set while an elaboration pass works on this Module
         self._source_info: Optional[SourceInfo] = source_info(get_pymodule=True)
         self._initialized = True
 
@@ -324,6 +326,10 @@ def _add(module: Module, val: ModuleAttr) -> ModuleAttr:
 
     if module._elaborated is not None:
         raise RuntimeError(f"Cannot add {val} to {module} after elaboration.")
+    if module._elaboration_started and not module._elaboration_open:
+        # Elaboration began but did not complete, e.g. because a parent of `module` failed.
+        msg = f"Cannot add {val} to {module}, which a (failed) elaboration has partially processed."
+        raise RuntimeError(msg)
 
     # Sort out which of our type-based containers to add `val` to.
     if isinstance(val, Signal):
